@@ -117,6 +117,37 @@ def run(ctx):
         got = [x[1] for x in vals]
         ctx.inst("C15.R3", "%s#reduction" % name, S.verdict(tuple(got), tuple(REDUCTION[name])), "computes %s; documented %s" % ([S.show(v) for v in got], [S.show(v) for v in REDUCTION[name]]), H.loc(a["body"]))
         ctx.inst("C15.R3", "%s#empty-is-error" % name, len(guards) == 1, "`if nums.is_empty() { return Err }` before the reduction: %s" % (len(guards) == 1), H.loc(a["body"]))
+    # ---- R5 hand-written accumulation keeps infinities
+    ctx.rule("C15.R5", "where sum / avg / prod accumulate in a hand-written loop or fold, the running value is never subtracted from or divided by something derived from itself (inf - inf and inf / inf are NaN: a list containing an infinity would no longer sum to that infinity)", floor=3)
+    for name in ("Sum", "Avg", "Prod"):
+        a = arms.get(name)
+        if a is None:
+            continue
+        bad, loops = [], 0
+        for lp in H.walk(a["body"]):
+            if H.kind(lp) == "For":
+                body_ = lp["body"]
+            elif H.kind(lp) == "MethodCall" and lp["name"] in ("fold", "try_fold", "reduce") and lp.get("args") and H.kind(H.strip(lp["args"][-1])) == "Closure":
+                body_ = H.strip(lp["args"][-1])
+            else:
+                continue
+            loops += 1
+            tainted = {H.path_local(x.get("l")) for x in H.walk(body_) if H.kind(x) in ("Assign", "AssignOp")} - {None}
+            if H.kind(body_) == "Closure" and body_.get("params"):
+                tainted |= set(H.pat_binds(body_["params"][0]))   # the accumulator parameter of a fold
+            for _ in range(6):
+                for st_ in H.walk(body_):
+                    if isinstance(st_, dict) and st_.get("k") == "Let" and st_.get("init") is not None:
+                        if any(H.path_local(y) in tainted for y in H.walk(st_["init"]) if H.kind(y) == "Path"):
+                            tainted |= set(H.pat_binds(st_["pat"]))
+            for x in H.walk(body_):
+                if (H.kind(x) == "Binary" and x["op"] in ("Sub", "Div")) or (H.kind(x) == "AssignOp" and x["op"] in ("Sub", "Div", "SubAssign", "DivAssign")):
+                    ls = [x.get("l"), x.get("r")]
+                    dep = [any(H.path_local(y) in tainted for y in H.walk(o) if H.kind(y) == "Path") for o in ls if o is not None]
+                    if len(dep) == 2 and dep[1]:
+                        bad.append("%s at %s" % (x["op"], H.loc(x)))
+        ctx.inst("C15.R5", "%s#accumulation" % name, not bad, "%d hand-written accumulation(s); differences / quotients of running values: %s" % (loops, bad or "none"), H.loc(a["body"]))
+
     # ---- R4 both calling conventions are admitted by the arity table
     ctx.rule("C15.R4", "the arity table admits both calling conventions for each of min max avg sum prod median: any number of arguments >= 1 (one list, one number, or several numbers)", floor=6)
     from rules import c01
